@@ -85,6 +85,10 @@ type gRow struct {
 	meths   string
 	ocls    string
 	okey    int
+	inj     string // "~" or "<ty>/<impl>" of the foreign-type substitute that holders receive instead of this component
+	hasInj  bool
+	injTy   int
+	injImpl int
 }
 
 type gRun struct {
@@ -274,6 +278,18 @@ func runGraph(sc *gScen) *gRun {
 		row.meths = "."
 		if len(ms) > 0 {
 			row.meths = strings.Join(ms, ",")
+		}
+		row.inj = "~"
+		if ri := res.rowOf[n]; ri < len(sc.nodes) && sc.nodes[ri].early >= foreignVer {
+			ft := reflect.TypeOf(&FW{})
+			fi := 0
+			for i, it := range ifaceTypes {
+				if ft.Implements(it) {
+					fi |= 1 << i
+				}
+			}
+			row.inj = fmt.Sprintf("%d/%d", tyOf(ft), fi)
+			row.hasInj, row.injTy, row.injImpl = true, tyOf(ft), fi
 		}
 		res.rows = append(res.rows, row)
 		env.byPtr[obj] = fmt.Sprintf("%d#0", res.rowOf[n])
@@ -482,8 +498,12 @@ func (r *gRun) scenarioLine() string {
 		if row.qual != nil {
 			q = hx.Hex(*row.qual)
 		}
-		recs = append(recs, fmt.Sprintf("R %d %s %d %d %d %d %d %s %s %s %d", i, hx.Hex(row.name), row.ty, row.impl,
-			b2i(row.custom), b2i(row.primary), b2i(row.lazy), q, row.meths, row.ocls, row.okey))
+		inj := row.inj
+		if inj == "" {
+			inj = "~"
+		}
+		recs = append(recs, fmt.Sprintf("R %d %s %d %d %d %d %d %s %s %s %d %s", i, hx.Hex(row.name), row.ty, row.impl,
+			b2i(row.custom), b2i(row.primary), b2i(row.lazy), q, row.meths, row.ocls, row.okey, inj))
 	}
 	for i, n := range sc.nodes {
 		wired := 1
